@@ -91,7 +91,15 @@ H4 == Renumber(
 H5 == Renumber(
       <<St(0, 1, <<1>>, "A"), St(0, 1, <<2, 1>>, "A"), St(0, 1, <<2, 2, 1>>, "A"), St(0, 1, <<2, 2, 2, 1>>, "A"), Mg(0, 1, <<2, 2, 2, 2>>, "m"),
         Ko(0, 1, <<2, 2, 3>>, "A"), Ok(0, 1, <<2, 2, 2, 3>>, "A"), Mg(0, 1, <<2, 3>>, "A"), Ko(0, 1, <<2, 4>>, "A"), Ok(0, 1, <<3>>, "A")>>)
-Hand == <<H1, H2, H3, H4, H5>>
+\* H6: the same confusions one level down: grandchildren at [2,2] and [2,20] (and [2,2] / [22] across levels), all "A"
+H6 == Renumber(
+      <<St(0, 1, <<1>>, "A"), St(0, 1, <<2, 1>>, "A"), St(0, 1, <<2, 2, 1>>, "A"), Mg(0, 1, <<2, 2, 2>>, "m"), Ok(0, 1, <<2, 2, 3>>, "A")>>
+      \o [n \in 1..17 |-> Mg(0, 1, <<2, n + 2>>, "m")]
+      \o <<St(0, 1, <<2, 20, 1>>, "A"), Mg(0, 1, <<2, 20, 2>>, "m"), Ko(0, 1, <<2, 20, 3>>, "A"), Ok(0, 1, <<2, 21>>, "A"),
+           St(0, 1, <<3, 1>>, "B"), Ok(0, 1, <<3, 2>>, "B")>>
+      \o [n \in 1..18 |-> Mg(0, 1, <<n + 3>>, "m")]
+      \o <<St(0, 1, <<22, 1>>, "A"), Ok(0, 1, <<22, 2>>, "A"), Ok(0, 1, <<23>>, "A")>>)
+Hand == <<H1, H2, H3, H4, H5, H6>>
 HandPrefixes == UNION {{SubSeq(Hand[h], 1, n) : n \in 1..Len(Hand[h])} : h \in DOMAIN Hand}
 
 -----------------------------------------------------------------------------
